@@ -31,6 +31,21 @@ def main():
         chk.add_tlc(r)
         if r.error:
             chk.machinery_failure("Builder run failed: %s\n%s" % (r.error, r.out[-1500:]))
+    # LogicSig variants: the same recipe with its inputs taken from LogicSig arguments, compiled in Signature mode
+    import copy
+    APP_ONLY = {"Log", "GPut", "GGet", "GDel", "MV", "MVHas", "MVVal", "ItxBegin", "ItxNext", "ItxField", "ItxSubmit"}
+    sigs = []
+    for p in progs[::5]:
+        if any(nd["k"] in APP_ONLY or (nd["k"] in ("Txn", "Global")) for nd in gen.prog_nodes(p)):
+            continue
+        q = copy.deepcopy(p)
+        for nd in gen.prog_nodes(q):
+            if nd["k"] == "TxnA" and nd["s"] == "ApplicationArgs":
+                nd.update({"k": "LsigArg", "s": ""})
+        q["mode"] = "sig"
+        sigs.append(q)
+    progs += sigs
+    chk.notes["logicsig_variants"] = len(sigs)
     import opsweep
     sweep = opsweep.programs()
     progs += [p for _, p in sweep]
